@@ -1,5 +1,7 @@
 package world
 
+import "time"
+
 func extraMonitors(prop string, tr *Tracker) []Monitor {
 	switch prop {
 	case "C08":
@@ -16,6 +18,16 @@ func extraMonitors(prop string, tr *Tracker) []Monitor {
 		return []Monitor{&monC05{base: base{tr}}}
 	case "C11":
 		return []Monitor{&monC11{base: base{tr}, reqs: map[string]*c11req{}}}
+	case "C26":
+		return []Monitor{&monC26{base: base{tr}, since: map[string]time.Duration{}}}
+	case "C27":
+		return []Monitor{&monC27{base: base{tr}}}
+	case "C29":
+		return []Monitor{&monC29{base: base{tr}, pre: map[int]*c29snap{}}}
+	case "C10":
+		return []Monitor{&c10probe{base: base{tr}}}
+	case "C20":
+		return []Monitor{&monC20{base: base{tr}}}
 	case "C12":
 		return []Monitor{&monC12{base: base{tr}}}
 	}
